@@ -1,18 +1,149 @@
-"""setup-time self test: tool chain present, worker reachable, shim basics agree with real numpy."""
+"""setup-time / on-demand self test: the numpy and dask shims against the real libraries on concrete inputs."""
+import itertools
+import math
 import sys
+
+A = {'data': [[1.5, float('nan'), -2.0, 0.0], [4.0, 4.0, float('inf'), -0.5], [7.25, 3.0, 3.0, float('nan')]], 'dtype': 'float64'}
+B = {'data': [[2.0, 1.0, 0.0, -1.0], [0.5, 4.0, 2.0, 8.0], [1.0, 3.0, -3.0, 2.0]], 'dtype': 'float64'}
+I = {'data': [[3, -1, 250, 7], [0, 0, 9, 100], [5, 5, 5, 2]], 'dtype': 'int32'}
+U = {'data': [[3, 1, 250, 7], [0, 0, 9, 100], [5, 5, 5, 2]], 'dtype': 'uint8'}
+V = {'data': [3.0, 1.0, float('nan'), 2.0, 2.0, -1.0], 'dtype': 'float64'}
+F32 = {'data': [[0.1, 0.2], [0.7, 16777217.0]], 'dtype': 'float32'}
+
+NUMPY_CASES = [
+    ('a + b', {'a': A, 'b': B}), ('a - b * 2', {'a': A, 'b': B}), ('a / b', {'a': A, 'b': B}), ('b / a', {'a': A, 'b': B}), ('a ** 2', {'a': A}),
+    ('np.isnan(a)', {'a': A}), ('np.isfinite(a)', {'a': A}), ('np.isinf(a)', {'a': A}), ('a[np.isfinite(a)]', {'a': A}), ('a[a > 1]', {'a': A}),
+    ('np.nansum(a)', {'a': B}), ('np.nanmean(a, axis=0)', {'a': A}), ('np.nanmax(a)', {'a': A}), ('np.nanmin(a, axis=1)', {'a': A}),
+    ('np.nanstd(b)', {'b': B}), ('np.nanvar(b)', {'b': B}), ('b.mean()', {'b': B}), ('b.std()', {'b': B}), ('b.var()', {'b': B}), ('b.max()', {'b': B}), ('a.max()', {'a': A}),
+    ('b.sum(axis=0)', {'b': B}), ('b.sum(axis=1)', {'b': B}), ('np.ptp(b)', {'b': B}), ('np.median(b)', {'b': B}), ('np.percentile(b, [25, 50, 100])', {'b': B}),
+    ('np.argsort(v)', {'v': V}), ('np.sort(v)', {'v': V}), ('np.unique(v)', {'v': V}), ('np.unique(i)', {'i': I}), ('np.lexsort((v, np.array([1, 0, 1, 0, 1, 0])))', {'v': V}),
+    ('np.where(a > 0, a, -1)', {'a': A}), ('np.where(np.isnan(v))[0]', {'v': V}), ('np.argwhere(b > 2)', {'b': B}),
+    ('i + i', {'i': U}), ('i * 2', {'i': U}), ('i - 10', {'i': U}), ('i.astype("f4") / 3', {'i': I}), ('i.astype(float).dtype.kind', {'i': I}), ('(i > 4) & (i < 200)', {'i': I}),
+    ('a.astype(np.uint8)', {'a': B}), ('np.array([float("nan"), float("inf"), -3.7, 300.2]).astype(np.uint8)', {}), ('np.array([float("nan"), 2.9, -2.9]).astype(np.int32)', {}),
+    ('f.astype(np.float64)', {'f': F32}), ('np.float32(0.1) == 0.1', {}), ('np.asarray([0.1, 0.2], dtype=np.float32).astype(np.float64)', {}),
+    ('a.ravel()', {'a': A}), ('a.T.ravel()', {'a': B}), ('a.T.ravel(order="K")', {'a': B}), ('a.reshape(4, 3)', {'a': B}), ('a.flatten()[::2]', {'a': B}), ('a[1:, ::2]', {'a': B}),
+    ('np.shares_memory(b, b[1:])', {'b': B}), ('np.shares_memory(b, b.ravel())', {'b': B}), ('np.shares_memory(b, b.flatten())', {'b': B}), ('np.shares_memory(b, b.astype(float))', {'b': B}),
+    ('np.shares_memory(b, b.astype(float, copy=False))', {'b': B}), ('np.shares_memory(b, b.T.ravel())', {'b': B}), ('np.shares_memory(i, i.astype(float, copy=False))', {'i': I}),
+    ('np.tile(v, 2)', {'v': V}), ('np.repeat(v, 2)', {'v': V}), ('np.hstack((b, b))', {'b': B}), ('np.stack([b, b], axis=-1).shape', {'b': B}), ('np.concatenate([v, v])', {'v': V}),
+    ('np.append(v, v)', {'v': V}), ('np.pad(b, ((1, 1), (0, 2)), mode="constant", constant_values=0)', {'b': B}), ('np.gradient(b)[0]', {'b': B}), ('np.gradient(b)[1]', {'b': B}),
+    ('np.meshgrid(np.arange(3), np.arange(2))[0]', {}), ('np.linspace(0, 1, 5, endpoint=False)', {}), ('np.arange(0.5, 2.6, 0.5)', {}), ('np.full((2, 2), np.nan)', {}),
+    ('np.zeros_like(i).dtype.kind', {'i': I}), ('np.zeros_like(i, dtype=np.float32).dtype.itemsize', {'i': I}), ('np.rot90(b)', {'b': B}), ('np.any(b > 7)', {'b': B}), ('np.all(b > -5, axis=0)', {'b': B}),
+    ('np.abs(a)', {'a': A}), ('np.sqrt(np.abs(b))', {'b': B}), ('np.arctan2(b, a)', {'a': B, 'b': B}), ('np.radians(b)', {'b': B}), ('np.mod(i, 4)', {'i': I}), ('np.maximum(a, b)', {'a': A, 'b': B}),
+    ('np.isclose(b, b + 1e-9)', {'b': B}), ('np.ma.count(b)', {'b': B}), ('np.nansum(np.array([[np.nan, np.nan], [1.0, np.nan]]), axis=0)', {}),
+    ('np.all(np.isnan(np.array([[np.nan, 1.0], [np.nan, np.nan]])), axis=0)', {}), ('np.sum(v == -np.inf)', {'v': V}),
+]
+
+
+def _enc(v):
+    from sx import symnp, core as sc
+    import numpy as np
+    if isinstance(v, symnp.SymArray):
+        return {'shape': list(v.shape), 'kind': v.dtype.kind, 'vals': [_enc(x) for x in v.flat_values()]}
+    if isinstance(v, np.ndarray):
+        return {'shape': list(v.shape), 'kind': v.dtype.kind, 'vals': [_enc(x) for x in v.ravel().tolist()]}
+    if isinstance(v, np.generic):
+        v = v.item()
+    if sc.is_sym(v):
+        v = sc.as_const(v)
+    if isinstance(v, float):
+        if v != v:
+            return 'nan'
+        if v in (math.inf, -math.inf):
+            return 'inf' if v > 0 else '-inf'
+        return v
+    if isinstance(v, (bool, int, str)) or v is None:
+        return v
+    if isinstance(v, (tuple, list)):
+        return [_enc(x) for x in v]
+    return repr(v)
+
+
+def _close(a, b):
+    if isinstance(a, dict) and isinstance(b, dict):
+        if 'exc' in a or 'exc' in b:
+            return a.get('exc') == b.get('exc')
+        return a['shape'] == b['shape'] and a['kind'] == b['kind'] and len(a['vals']) == len(b['vals']) and all(_close(x, y) for x, y in zip(a['vals'], b['vals']))
+    if isinstance(a, list) and isinstance(b, list):
+        return len(a) == len(b) and all(_close(x, y) for x, y in zip(a, b))
+    if isinstance(a, (int, float)) and isinstance(b, (int, float)) and not isinstance(a, bool) and not isinstance(b, bool):
+        return abs(a - b) <= 1e-9 * (1 + abs(b))
+    return a == b
+
+
+def shim_numpy(cases):
+    from sx import symnp, core as sc
+    sc.EX = sc.Explorer()
+    out = []
+    for expr, inputs in cases:
+        env = {'np': symnp, 'nan': math.nan, 'inf': math.inf, 'float': float}
+        for k, spec in inputs.items():
+            env[k] = symnp.asarray(spec['data'], spec['dtype'])
+        try:
+            out.append(_enc(eval(expr, env)))
+        except Exception as e:
+            out.append({'exc': type(e).__name__})
+    return out
+
+
+def dask_cases():
+    from props.common import compositions
+    data = [[float(10 * y + x) for x in range(4)] for y in range(3)]
+    data[1][2] = float('nan')
+    cases = []
+    for cy in compositions(3):
+        for cx in compositions(4):
+            for depth in ((0, 0), (1, 1), (1, 0), (0, 2), (2, 1), (2, 2)):
+                cases.append(['overlap-halo', data, 'float64', [list(cy), list(cx)], list(depth), float('nan')])
+            cases.append(['overlap-shape', data, 'float64', [list(cy), list(cx)], [1, 2], 0.0])
+            cases.append(['blocks-shape', data, 'float64', [list(cy), list(cx)], [0, 0], 0.0])
+    cases.append(['overlap-halo', data, 'float64', [[3], [4]], [4, 1], float('nan')])     # depth larger than the array
+    cases.append(['nanmean', data, 'float64', [[1, 2], [2, 2]], [0, 0], 0.0])
+    return cases
+
+
+def shim_dask(cases):
+    from sx import symnp, symda, userfuncs, core as sc
+    sc.EX = sc.Explorer()
+    out = []
+    for op, data, dtype, chunks, depth, boundary in cases:
+        x = symda.Array(symnp.asarray(data, dtype), tuple(tuple(c) for c in chunks))
+        try:
+            if op == 'overlap-halo':
+                r = x.map_overlap(userfuncs.halo_probe, depth=tuple(depth), boundary=boundary, meta=None)
+            elif op == 'overlap-shape':
+                r = x.map_overlap(userfuncs.shape_probe, depth=tuple(depth), boundary=boundary, meta=None)
+            elif op == 'blocks-shape':
+                r = x.map_blocks(userfuncs.shape_probe)
+            else:
+                r = symda.nanmean(x)
+            out.append(_enc(r.compute()))
+        except Exception as e:
+            out.append({'exc': type(e).__name__})
+    return out
 
 
 def main():
     import z3
-    from sx import wire, symnp
+    sys.path.insert(0, __import__('os').path.dirname(__import__('os').path.dirname(__import__('os').path.abspath(__file__))))
+    from sx import wire
     w = wire.worker()
     r = w.request({'op': 'ping'})
     assert r['ok'], r
     print("selftest: z3", z3.get_version_string(), "| worker imports", r['file'])
-    bad = w.script('shim_selftest')
+    bad = 0
+    real = w.script('numpy_eval', NUMPY_CASES)
+    mine = shim_numpy(NUMPY_CASES)
+    for (expr, _), a, b in zip(NUMPY_CASES, mine, real):
+        if not _close(a, b):
+            bad += 1
+            print("selftest: numpy shim mismatch:", expr, "| shim", str(a)[:200], "| real", str(b)[:200])
+    dc = dask_cases()
+    real = w.script('dask_eval', dc)
+    mine = shim_dask(dc)
+    for c, a, b in zip(dc, mine, real):
+        if not _close(a, b):
+            bad += 1
+            print("selftest: dask shim mismatch:", c[0], c[3], c[4], "| shim", str(a)[:200], "| real", str(b)[:200])
     wire.close_worker()
-    if bad:
-        print("selftest: shim mismatches:", bad[:5])
-        return 3
-    print("selftest: ok")
-    return 0
+    print("selftest: %d numpy expressions, %d dask cases, %d mismatches" % (len(NUMPY_CASES), len(dc), bad))
+    return 3 if bad else 0
